@@ -31,11 +31,13 @@ with open(os.path.join(root, 'INDEX.md'), 'w') as f:
     f.write('| seed | change | needs | detected by (when it arrived) | final run |\n|---|---|---|---|---|\n')
     for r in rows:
         f.write('| %s | %s | %s | %s | %s |\n' % r)
+    open_ = sum(1 for r in rows if 'not followed up' in r[3])
     caught = sum(1 for r in rows if r[3] and not r[3].upper().startswith('MISSED') and not r[3].upper().startswith('NOT') and not r[3].upper().startswith('OUTSIDE'))
-    missed_first = sum(1 for r in rows if r[3].upper().startswith('MISSED'))
-    f.write('\n%d seeds; %d caught by the check as it was when the seed arrived, %d missed at first and caught after the '
-            'check was extended from a description of the regression (never from the patch), %d judged outside the statement.\n'
-            % (len(rows), caught, missed_first, len(rows) - caught - missed_first))
+    missed_first = sum(1 for r in rows if r[3].upper().startswith('MISSED')) - open_
+    f.write('\n%d seeds; %d reported by the check as it was when the seed arrived, %d missed at first and reported after the '
+            'check was extended from a description of the regression (never from the patch), %d missed in the last round and '
+            'NOT followed up (they stay unreported: see the final-run column), %d judged outside the statement.\n'
+            % (len(rows), caught, missed_first, open_, len(rows) - caught - missed_first - open_))
     if refs:
         f.write('\n## Behaviour-preserving refactorings (must NOT alarm)\n\n')
         for d in refs:
